@@ -103,7 +103,7 @@ def check_case(case):
             elif abs(n.instant - exp) > tol:
                 fail = ("instant: mode %s %s %s %s -> %s (native %r %r:%r:%r) "
                         "is off by %s s" % (
-                            mode, M.fmt_kw(kw), op, dkw, q, n.date, n.h, n.m,
+                            mode, M.fmt_kw(kw), op, dkw, M.sp(q), n.date, n.h, n.m,
                             n.s, float(n.instant - exp)))
             elif n.rep != rep:
                 fail = "representation: %s -> %s" % (rep, n.rep)
